@@ -235,7 +235,26 @@ def mont_edge_scalar(rng):
     return w * RINV % L
 
 
+def bitlen_scalar(rng, cap=253):
+    """a scalar of a random bit length k <= cap: 2^k - 1 (all ones), 2^k, 2^k + 1, 0xf8..01-like, or random k-bit"""
+    k = rng.randrange(1, cap)
+    c = rng.randrange(5)
+    if c == 0:
+        v = 2**k - 1
+    elif c == 1:
+        v = 2**k
+    elif c == 2:
+        v = 2**k + 1
+    elif c == 3:
+        v = (0x1f << max(0, k - 5)) | 1
+    else:
+        v = rng.randrange(2**(k - 1), 2**k) if k > 1 else 1
+    return v % L
+
+
 def scalar_val(rng):
+    if rng.randrange(6) == 0:
+        return bitlen_scalar(rng)
     c = rng.randrange(12)
     if c < 6:
         return rnd_scalar(rng)
@@ -356,6 +375,46 @@ def suite_C01(g, tier):
             if a % 3 == 0:
                 p.op("Point.VarTimeMultiScalarMult", r=r, ss=["s0", "s3", "s0"], ps=["p1", "p1", "p1"])
                 p.op("Point.Bytes", r=r, o=["b0"])
+    # larger term counts (chunked / batched implementations have remainders), through repeated registers
+    sizes = [5, 7, 9, 17] if tier == "quick" else [5, 6, 7, 9, 12, 15, 16, 17, 31, 32, 33, 64, 65]
+    for alg in ["Point.MultiScalarMult", "Point.VarTimeMultiScalarMult"]:
+        for n in sizes:
+            p = g.new("C01 %s n=%d" % (alg, n))
+            for j in range(4):
+                load_point(p, "p%d" % (1 + j), any_point(rng), rng)
+                load_scalar(p, "s%d" % j, scalar_val(rng) if j else rng.randrange(2**20), rng)
+            prep_receiver(p, "p0", rng, rng.choice(RECV_KINDS))
+            p.op(alg, r="p0", ss=[rng.choice(["s0", "s1", "s2", "s3"]) for _ in range(n)], ps=[rng.choice(["p1", "p2", "p3", "p4"]) for _ in range(n)])
+            p.op("Point.Bytes", r="p0", o=["b0"])
+    # calls in which every scalar is short (the algorithms may size their loops by the longest scalar)
+    reps = 2 if tier == "quick" else 12
+    for _ in range(reps):
+        for cap in (64, 65, 128, 129, 192, 193, 250):
+            p = g.new("C01 all scalars below 2^%d" % cap)
+            load_point(p, "p1", any_point(rng), rng)
+            load_point(p, "p2", any_point(rng), rng)
+            for j in range(3):
+                v = rng.choice([2**(cap - 1) - 1, 2**(cap - 1), bitlen_scalar(rng, cap), bitlen_scalar(rng, cap)]) if cap > 1 else 1
+                p.scalar_canon("s%d" % j, v % L)
+            r = rng.choice(["p0", "p3"])
+            p.op("Point.VarTimeMultiScalarMult", r=r, ss=["s0", "s1"], ps=["p1", "p2"])
+            p.op("Point.VarTimeMultiScalarMult", r=r, ss=["s0"], ps=["p1"])
+            p.op("Point.MultiScalarMult", r=r, ss=["s0", "s1", "s2"], ps=["p1", "p2", "p1"])
+            p.op("Point.VarTimeDoubleScalarBaseMult", r=r, a=["s0", "p1", "s1"])
+            p.op("Point.ScalarMult", r=r, a=["s2", "p2"])
+            p.op("Point.ScalarBaseMult", r=r, a=["s1"])
+    # long calls with the receiver aliased to an early, a middle and the last term
+    for alg in ["Point.MultiScalarMult", "Point.VarTimeMultiScalarMult"]:
+        for n in ([17, 33] if tier == "quick" else [9, 16, 17, 18, 32, 33, 40, 65]):
+            for pos in sorted({0, n // 2, n - 1}):
+                p = g.new("C01 %s n=%d receiver = points[%d]" % (alg, n, pos))
+                for j in range(4):
+                    load_point(p, "p%d" % j, any_point(rng), rng)
+                    load_scalar(p, "s%d" % j, rng.randrange(2**24) if j else scalar_val(rng), rng)
+                ps = [rng.choice(["p1", "p2", "p3"]) for _ in range(n)]
+                ps[pos] = "p0"
+                p.op(alg, r="p0", ss=[rng.choice(["s0", "s1", "s2", "s3"]) if i == pos else rng.choice(["s1", "s2", "s3"]) for i in range(n)], ps=ps)
+                p.op("Point.Bytes", r="p0", o=["b0"])
     # eight terms through six registers (repeated pointers)
     for alg in ["Point.MultiScalarMult", "Point.VarTimeMultiScalarMult"]:
         p = g.new("C01 %s n=8" % alg)
@@ -413,6 +472,18 @@ def suite_C02(g, tier):
                 p.op("Point.Bytes", r="p4", o=["b1"])
         if it == 0:
             stale_state_programs(g, tier, "C02")
+            sibling_programs(g, tier, "C02")
+        if it < (2 if tier == "quick" else 12):
+            # Q = +-A + T for every small-order T: the pairs on which dedicated (incomplete) formulas break down
+            p = g.new("C02 Q = +-A + T for all small-order T")
+            load_point(p, "p0", A, rng)
+            for sgn in (1, -1):
+                for T in TORS_PTS:
+                    base = A if sgn > 0 else ((P - A[0]) % P, A[1])
+                    load_point(p, "p1", padd(base, T), rng, rng.choice(["bytes", "ext-lam"]))
+                    p.op("Point.Add", r="p2", a=["p0", "p1"])
+                    p.op("Point.Subtract", r="p3", a=["p0", "p1"])
+                    p.op("Point.Subtract", r="p3", a=["p1", "p0"])
         for op in ["Point.Negate", "Point.MultByCofactor"]:
             for r in ["p0", "p2"]:
                 p = g.new("C02 %s %s" % (op, r))
@@ -493,6 +564,32 @@ def stale_state_programs(g, tier, tag):
                 # unrelated work of the same shape on another point, then the same calls once more
                 uses("p1", "p2")
                 uses()
+
+
+def sibling_programs(g, tier, tag):
+    """points built from another point's exported coordinates by negating coordinates: (sX X, sY Y, sZ Z, sT T) with
+    sX sY = sZ sT is a valid representation of +-P (+ the order-2 point); the siblings share limbs with P"""
+    rng = g.rng
+    pats = [(1, 1, -1, -1), (-1, -1, 1, 1), (-1, 1, 1, -1), (1, -1, 1, -1), (-1, 1, -1, 1), (1, -1, -1, 1), (-1, -1, -1, -1)]
+    n = 3 if tier == "quick" else 20
+    for it in range(n):
+        for pat in pats:
+            p = g.new("%s sign-pattern sibling %s" % (tag, pat))
+            load_point(p, "p0", any_point(rng), rng, rng.choice(["bytes", "ext-lam"]))
+            if rng.randrange(2):
+                p.op("Point.Add", r="p0", a=["p0", "p0"])          # a representation produced by arithmetic
+            p.op("Point.ExtendedCoordinates", r="p0", o=["e0", "e1", "e2", "e3"])
+            for c, sgn in zip(["e0", "e1", "e2", "e3"], pat):
+                if sgn < 0:
+                    p.op("Elem.Negate", r=c, a=[c])
+            p.op("Point.SetExtendedCoordinates", r="p1", a=["e0", "e1", "e2", "e3"])
+            p.op("Point.Add", r="p2", a=["p0", "p1"])
+            p.op("Point.Subtract", r="p3", a=["p0", "p1"])
+            p.op("Point.Add", r="p2", a=["p1", "p0"])
+            p.op("Point.Subtract", r="p3", a=["p1", "p0"])
+            p.op("Point.Equal", r="p0", a=["p1"])
+            p.op("Point.Equal", r="p1", a=["p0"])
+            p.op("Point.Bytes", r="p1", o=["b0"])
 
 
 def suite_C04(g, tier):
@@ -675,6 +772,7 @@ def suite_C06(g, tier):
                 if j % 2 == 0:
                     p.rescale("p1", rng.randrange(2, P))
                     p.op("Point.Equal", r="p0", a=["p1"])
+    sibling_programs(g, tier, "C06")
     for i in range(8):
         p = g.new("C06 torsion row %d" % i)
         load_point(p, "p0", TORS_PTS[i], rng)
@@ -731,6 +829,20 @@ def suite_C07(g, tier):
         load_scalar(p, "s5", R * pow(xv, L - 2, L) % L, rng, "canon")
         p.op("Scalar.Multiply", r="s3", a=rng.choice([["s4", "s5"], ["s5", "s4"]]))
         p.op("Scalar.MultiplyAdd", r="s2", a=["s4", "s5", rng.choice(["s2", "s0"])])
+        # result-directed sum / difference in the Montgomery domain: the integer sum of the two representatives is structured
+        S = 0
+        for i in range(4):
+            S |= rng.choice(PAL64 + [2**60, 2**60 + 1, 2**61 - 1, rng.randrange(2**64)]) << (64 * i)
+        S %= 2 * L
+        am = rng.randrange(0, min(S, L - 1) + 1)
+        bm = S - am
+        if bm < L:
+            load_scalar(p, "s4", am * RINV % L, rng, "canon")
+            load_scalar(p, "s5", bm * RINV % L, rng, "canon")
+            p.op("Scalar.Add", r="s3", a=rng.choice([["s4", "s5"], ["s5", "s4"]]))
+            p.op("Scalar.Bytes", r="s3", o=["b1"])
+            p.op("Scalar.Subtract", r="s2", a=["s3", "s5"])
+            p.op("Scalar.MultiplyAdd", r="s2", a=["s0", "s1", "s3"])
         # the same value in whatever representation an operation left it and freshly decoded: Equal both ways
         for r in ("s3", "s2"):
             p.op("Scalar.Bytes", r=r, o=["b1"])
@@ -1013,8 +1125,15 @@ def suite_C09(g, tier):
             y32 = rng.choice([1, 2, 3, 19, 38, 121665, 121666, 2**31, 2**32 - 1, 2**32 - 19, rng.randrange(1, 2**32), rng.randrange(1, 2**32)])
             R = rng.choice([chain_val(rng), chain_val(rng), struct_val(rng) % P, sparse_val(rng)])
             xv = R * inv(y32) % P
-            load_elem(p, "e%d" % (k % 4), xv, rng, rng.choice(["bytes", "inject"]))
-            p.op("Elem.Mult32", r=rng.choice(["e4", "e%d" % (k % 4)]), a=["e%d" % (k % 4)], n=y32)
+            load_elem(p, "e%d" % (k % 4), xv, rng, rng.choice(["bytes", "inject", "wide"]))
+            rr = rng.choice(["e4", "e%d" % (k % 4)])
+            p.op("Elem.Mult32", r=rr, a=["e%d" % (k % 4)], n=y32)
+            if k % 2 == 0:      # the (uncarried) product as subtrahend / under Negate, Absolute, again under Mult32
+                p.op("Elem.Negate", r="e5", a=[rr])
+                p.op("Elem.Subtract", r="e6", a=["e5", rr])
+                p.op("Elem.Absolute", r="e7", a=[rr])
+                p.op("Elem.Mult32", r="e7", a=[rr], n=rng.choice([2**32 - 1, 38, y32]))
+                p.op("Elem.Negate", r="e7", a=["e7"])
     # Multiply / Square / Add / Subtract: result-directed
     for it in range(nm):
         p = g.new("C09 directed arithmetic")
@@ -1153,12 +1272,25 @@ def suite_C10(g, tier):
         if rng.randrange(4) == 0:
             b[32:64] = le(struct_val(rng))
         wides.append(bytes(b))
+    # structured halves: each half all ones / limb patterns that maximise the folded sums
+    for lo_ in (2**255 - 1, 2**256 - 1, struct_val(rng), (2**51 - 1) | ((2**51 - 1) << 204)):
+        for hi_ in (2**256 - 1, ((2**51 - 1) // 38) | ((2**51 - 1) << 204) | (1 << 255), ((2**51 - 1) // 19) | (1 << 255), struct_val(rng) | (1 << 255)):
+            wides.append(le(lo_ % 2**256) + le(hi_ % 2**256))
     for i in range(0, len(wides), 6):
         p = g.new("C10 wide")
+        load_elem(p, "e3", field_val(rng), rng)
         for k, s in enumerate(wides[i:i + 6]):
             p.buf("b%d" % k, s)
             p.op("Elem.SetWideBytes", r="e0", a=["b%d" % k])
             p.op("Elem.Bytes", r="e0", o=["b7"])
+            # the decoded representation used in every role (it may sit at the edge of the representation invariant)
+            p.op("Elem.Negate", r="e1", a=["e0"])
+            p.op("Elem.Subtract", r="e2", a=["e3", "e0"])
+            p.op("Elem.Absolute", r="e4", a=["e0"])
+            p.op("Elem.Square", r="e5", a=["e0"])
+            p.op("Elem.Add", r="e6", a=["e0", "e0"])
+            p.op("Elem.Subtract", r="e6", a=["e6", "e0"])
+            p.op("Elem.IsNegative", r="e0")
     lens = list(range(0, 34)) + [63, 64, 65, 128]
     for op in ["Elem.SetBytes", "Elem.SetWideBytes"]:
         for i in range(0, len(lens), 6):
@@ -1825,7 +1957,19 @@ if __name__ == "__main__":
 # from `sh`; all secret values (scalars, points, field elements, cond bits, prior receiver contents) from `sec`.
 # Running the generator twice with the same shape seed and two secret seeds gives the two programs of a pair.
 
+CT_LAST = {}
+
+
 def ct_point(sec):
+    # sometimes the same point as the previous one drawn from this secret stream (coincidences between secrets are secret)
+    if "pt" in CT_LAST.get(id(sec), {}) and sec.randrange(4) == 0:
+        return CT_LAST[id(sec)]["pt"]
+    pt = ct_point_fresh(sec)
+    CT_LAST.setdefault(id(sec), {})["pt"] = pt
+    return pt
+
+
+def ct_point_fresh(sec):
     c = sec.randrange(8)
     if c == 0:
         return (0, 1)
@@ -1841,6 +1985,14 @@ def ct_point(sec):
 
 
 def ct_scalar(sec):
+    if "sc" in CT_LAST.get(id(sec), {}) and sec.randrange(5) == 0:
+        return CT_LAST[id(sec)]["sc"]
+    k = ct_scalar_fresh(sec)
+    CT_LAST.setdefault(id(sec), {})["sc"] = k
+    return k
+
+
+def ct_scalar_fresh(sec):
     c = sec.randrange(8)
     if c == 0:
         return sec.choice([0, 1, 2, 8, L - 1, L - 2, 2**252, 2**252 + 1, (L - 1) // 2])
@@ -1934,6 +2086,7 @@ def suite_C03(shape_seed, secret_seed, tier):
         if r == "p0":
             ct_prep_receiver(p, "p0", sh.choice(kinds), sec)
         p.op("Point.ScalarMult", r=r, a=["s0", "p1"])
+        p.op("Point.ScalarMult", r="p5", a=["s1", "p2"])             # consecutive calls: p2 may or may not equal p1 (secret)
         p.op("Point.ScalarBaseMult", r=sh.choice(["p0", "p3"]), a=["s1"])
         n = sh.randrange(0, 4)
         p.op("Point.MultiScalarMult", r=sh.choice(["p0", "p4", "p2"]), ss=[sh.choice(["s0", "s1", "s2"]) for _ in range(n)],
